@@ -585,6 +585,16 @@ fn block_comment(b: &mut B, rng: &mut Rng, l: &CL, indent: &str) {
             comment_items(b, rng, l);
             b.push(" ");
             b.zone(cl, ZK::Delim, "block-closer");
+            // sometimes a second single-line block comment follows with NOTHING in between
+            // (`/* a *//* b */`): two comment nodes whose byte ranges touch
+            if !op.ends_with("[[") && rng.chance(1, 4) {
+                b.zone(op, ZK::Delim, "block-opener");
+                b.push(" ");
+                comment_items(b, rng, l);
+                b.push(" ");
+                b.zone(cl, ZK::Delim, "block-closer");
+                b.feat("block-touching");
+            }
             b.ctx = "";
             b.feat("block-single");
         }
